@@ -930,6 +930,13 @@ func init() {
 			job(scAny(&gcCfg{id: "c14-gc-k2", k: 2, rel: true}), pick(tier, 6, 9), 2),
 			job(scAny(&gcCfg{id: "c14-gc-k3", k: 3, rel: false}), pick(tier, 5, 7), 1),
 			job(scAny(&gcCfg{id: "c14-gc-k3-rel", k: 3, rel: true}), pick(tier, 5, 7), 1),
+			// one worker: nothing else in the process supplies component values, so whatever the library itself
+			// remembers of the last supplied value (package-level scratch) stays visible to the leak oracle
+			func() runner.Job {
+				j := job(scAny(&gcCfg{id: "c14-gc-k2-single-worker", k: 2, rel: false}), pick(tier, 4, 5), 1)
+				j.Workers = 1
+				return j
+			}(),
 			job(scAny(&gcCfg{id: "c14-gc-k2-zero-sized-first", k: 2, rel: false, zfirst: true}), pick(tier, 5, 7), 1),
 			job(scAny(&gcCfg{id: "c14-gc-k2-pointer-registered-last", k: 2, rel: true, pcLast: true}), pick(tier, 5, 7), 1),
 		}
